@@ -49,20 +49,20 @@ def proj(fields=(), mon=None, fin=False, obs0=False, finfields=("n", "r", "m")):
 FULL = lambda lines: list(lines)  # noqa
 
 PROPS = {
-    "C01": dict(comps=["stream."], project=proj(mon="*")),
-    "C02": dict(comps=["stream."], project=proj(mon="*")),
-    "C03": dict(comps=["stream."], project=proj(mon="*")),
-    "C04": dict(comps=["stream."], project=proj(mon="*")),
+    "C01": dict(comps=["stream.", "inter."], project=proj(mon="*")),
+    "C02": dict(comps=["stream.", "inter."], project=proj(mon="*")),
+    "C03": dict(comps=["stream.", "inter."], project=proj(mon="*")),
+    "C04": dict(comps=["stream.", "inter."], project=proj(mon="*")),
     "C05": dict(comps=["stream.multistage", "stream.revolve", "fn.n_advance", "fn.optimal_extra_steps", "fn.optimal_steps_binomial"],
                 project=proj(mon=("status", "fwd")), drop_actions=True),
     "C06": dict(comps=["stream.mixed", "fn.optimal_steps_mixed", "fn.mixed_step_memoization"], project=proj(mon=("status", "fwd")), drop_actions=True),
     "C07": dict(comps=["stream.revolve", "stream.disk", "stream.periodic", "stream.hrevolve", "fn.get_opt_0_table", "fn.get_opt_inf_table",
                        "fn.get_hopt_table", "fn.argmin", "seq."], project=proj(mon=("fwd", "dw", "dr")), drop_actions=True),
-    "C08": dict(comps=["stream.", "hist."], project=proj(fields=("n", "r", "m"), mon=("status",), fin=True, obs0=True)),
+    "C08": dict(comps=["stream.", "hist.", "inter."], project=proj(fields=("n", "r", "m"), mon=("status",), fin=True, obs0=True)),
     "C09": dict(comps=["stream.", "hist."], project=proj(fields=("x", "run"), obs0=True, fin=True, finfields=("x", "run"))),
     "C10": dict(comps=["hist.", "stream.basic", "stream.twolevel"], project=proj(fields=(), fin=True)),
     "C11": dict(comps=["stream.", "hist.", "ctor."], project=proj(fields=("u",), obs0=True, fin=True, finfields=("u",))),
-    "C12": dict(comps=["stream."], project=proj(mon="*")),
+    "C12": dict(comps=["stream.", "inter."], project=proj(mon="*")),
     "C13": dict(comps=["stream.twolevel", "hist.twolevel", "fn.n_advance"], project=proj(mon="*")),
     "C14": dict(comps=["stream.multistage", "fn.allocate_snapshots"], project=proj(mon="*")),
     "C15": dict(comps=["hist.", "inter.", "fresh.", "stream.multistage", "stream.mixed", "fn.allocate_snapshots"],
